@@ -3,7 +3,7 @@ from lib import semcheck, progs
 from lib.semcheck import impl, model_expr, compare, oracle, describe, shrink, IMPORTS
 
 ID = 'C01'
-THEOREMS = ['C01_compile_program_total', 'C01_compiled_program_computes_reference', 'C01_body_code_correct', 'C01_fresh_head_variable', 'C01_call_never_cuts']
+THEOREMS = ['C01_compile_program_total', 'C01_compiled_program_computes_reference', 'C01_body_code_correct', 'C01_fresh_head_variable', 'C01_activations_use_fresh_cells', 'C01_distinct_variables_distinct_cells', 'C01_call_never_cuts']
 CASE_TIMEOUT = 20
 COQ_CHUNK = 20
 RULE = ('random programs of facts and rules (2-5 predicates of arity 0-3 with 1-4 clauses, leaf fact predicates with 0-3 solutions that bind '
